@@ -100,28 +100,29 @@ _GC_C05 = ['proofs::o05_4_marks_cleared', 'proofs::o05_4_temp_root_survives', 'p
 _GC_C09 = ['proofs::o09_intern_twice', 'proofs::o09_intern_across_collection']
 PROPS['C20'] = dict(
   level='proof',
+  verus=[dict(unit='gcglue', min_functions=7)],
   kani=[dict(crate='heap', harnesses=_HEAP_COMPLETE, kind='complete', assumption_ids=['A-kani']),
         dict(crate='heap', harnesses=_HEAP_BOUNDED, kind='bounded', bound='string <= 3 bytes, tuple <= 3 elements, list/vector len <= 2 cap <= 4, array <= 3, unwind 8', assumption_ids=['A-kani', 'A-bound']),
         dict(crate='gc', harnesses=_GC_BOUNDED, kind='bounded', bound='one LyBox, one or two collections, unwind 4', timeout=2400, jobs=4,
              assumption_ids=['A-kani', 'A-bound', 'A-stub'])],
-  not_decided=['"exactly the objects reachable from the program": the root sets of Vm and Compiler (C05)', 'long-run boundedness (follows by arithmetic from exact accounting after every collection; stated, not proved)',
-               'intern table contents (C09)'],
+  not_decided=['the bodies of the three sweeps are bounded Kani only (the gcglue unit assumes their contracts: keep the marked, clear the marks, return the bytes left)', 'long-run boundedness (follows by arithmetic from exact accounting after every collection and a full collection at least every 10th; stated, not proved)',
+               'gc_stress / gc_log_* builds (the default feature set is what is extracted, R3c)'],
 )
 
 PROPS['C05'] = dict(
   level='proof',
-  verus=[dict(unit='gctrace', min_functions=34), dict(unit='klass', min_functions=2)],
+  verus=[dict(unit='gctrace', min_functions=34), dict(unit='klass', min_functions=2), dict(unit='gcglue', min_functions=8)],
   kani=[dict(crate='trace', harnesses=['proofs::o05_2_dispatch_%s' % k for k in ['channel', 'class', 'closure', 'enumerator', 'fun', 'instance', 'list', 'method', 'native', 'string', 'lybox', 'tuple']],
              kind='bounded', bound='12 of 13 object kinds (Map excluded: generic impl cannot be stubbed), one raw object per kind, unwind 15', timeout=1200, jobs=4, mem_gb=12, assumption_ids=['A-kani', 'A-stub', 'A-bound']),
         dict(crate='gc', harnesses=_GC_C05, kind='bounded', bound='one LyBox, one or two collections, unwind 4', timeout=2400, jobs=3, assumption_ids=['A-kani', 'A-stub', 'A-bound'])],
   explanation='Verus: every trace body reaches every GC-typed field of its struct (contracts generated from the real struct definitions), mark-guarded handles and the 13-kind dispatch; Kani (bounded): the real dispatch and the real Allocator sweep',
-  not_decided=['natives\' push_root discipline (temporary roots around allocations in natives and in the compiler), allocate/allocate_obj rooting of the in-flight object, "same output under every collection schedule"',
+  not_decided=['natives\' push_root discipline (temporary roots around allocations in natives and in the compiler), "same output under every collection schedule"',
                'the tri-colour invariant over the whole heap (marked objects have their children traced before the sweep) is an induction over the object graph, not stated',
                'A-alias: Class.init aliases an entry of Class.methods (exempted field in gctrace): proved as an invariant of add_method / inherit in the klass unit under the premise that the name "init" is interned once (C09)', 'ChannelWaiter.waiter (Box<dyn TraceAny>) and Value::trace itself (two cfg variants) are leaves of the model'],
 )
 PROPS['C09'] = dict(
   level='proof',
-  verus=[dict(unit='intern', min_functions=3)],
+  verus=[dict(unit='intern', min_functions=3), dict(unit='gcglue', min_functions=1)],
   kani=[dict(crate='gc', harnesses=['proofs::o09_intern_evicts_unrooted', 'proofs::o09_intern_keeps_rooted', 'proofs::o09_intern_promoted_survives_nursery'], kind='bounded', tier='thorough',
              bound='one 2-byte string, one full collection, unwind 10 (12-15 min each in CBMC: hashbrown; o09_intern_twice did not finish in 40 min and is not registered)', timeout=3000, jobs=3, mem_gb=16,
              assumption_ids=['A-kani', 'A-stub', 'A-bound'])],
